@@ -815,6 +815,7 @@ Inductive label :=
 | LWDie (a : N)             (* killed, or its handler failed / panicked *)
 | LWExit (a : N)            (* a stop-requested actor that runs nothing exits *)
 | LWStopExt (a : N)         (* somebody outside the factory stops worker actor a gracefully; its post_stop will be slow *)
+| LWGate (a : N)            (* GHOST: from now on actor a's post_stop is slow (held back by the driver), whoever stops it *)
 | LWClose (a : N)           (* such an actor leaves its loop: status Stopping, ports closed, post_stop running, supervisor not yet told *)
 | LWClosed (a : N)          (* its post_stop returns: the supervisor is told *)
 | LFinalize.                (* all workers gone: post_stop returns, the factory state is dropped *)
@@ -954,6 +955,7 @@ Definition step (c : config) (w : world) (l : label) : world :=
   | LWDie a => w_die a w
   | LWExit a => w_exit a w
   | LWStopExt a => set_gated (addN a (gated w)) (stop_actor a w)
+  | LWGate a => set_gated (addN a (gated w)) w
   | LWClose a => w_close a w
   | LWClosed a => w_closed a w
   | LFinalize => finalize w
